@@ -17,7 +17,7 @@ ANCHOR_FILES = ["dissect/hypervisor/disk/vhdx.py"]
 RULE = (
     "Non-differencing VHDX files written by an independent writer from a content model: block sizes 1..32 MiB "
     "(..256 MiB thorough), 512- and 4096-byte logical sectors, payload states 0/1/2/3/6 (stale file offsets left "
-    "in non-present entries), blocks at MiB-aligned offsets in shuffled/reversed/run-wise order, disks with more "
+    "in non-present entries), blocks at MiB-aligned offsets in shuffled/reversed/run-wise order and at file offsets beyond 4 GiB / 1 TiB / 2^50, disks with more "
     "blocks than one chunk ratio so sector-bitmap BAT slots are interleaved (present blocks placed around every "
     "chunk boundary), virtual sizes that are not a block multiple, both header sequence orders, permuted metadata "
     "items and region entries; byte requests from boundary sets (mid-block starts spanning 1..n blocks) and "
@@ -30,7 +30,7 @@ ASSUMPTIONS = [
     "held means: held on the executions listed, not verified for all inputs",
 ]
 MINIMA = {
-    "quick": {"reads_compared": 1500, "midblock_cross_nonadjacent": 100, "beyond_first_chunk_reads": 50},
+    "quick": {"reads_compared": 1500, "midblock_cross_nonadjacent": 100, "beyond_first_chunk_reads": 50, "blocks_beyond_1TiB_file_offset": 20},
     "thorough": {"reads_compared": 15000},
 }
 MECH = "vhdx.read"
@@ -150,7 +150,7 @@ def run(case: dict, ctx) -> dict:
         rng, block_size=bs, sector_size=ss, nblocks=n, tail_cut_sectors=tail, states=states, placement=placement,
         tag=rng.getrandbits(48), seqs=rng.choice([(5, 9), (9, 5), (1, 2), (2**40, 3)]), stale=rng.choice(["valid", "valid", "zero"]),
         meta_item_order=rng.choice([None, "shuffle", "rev"]), item_gap=rng.choice([0, 0, 8, 4096]),
-        checksums=(bs <= 8 * MB),
+        checksums=(bs <= 8 * MB), far_mb=rng.choice([0, 0, 0, 1 << 12, (1 << 20) + 3, 3 << 20, 1 << 30]),
     )
     model = Model(meta["size"], [layer])
     fh = as_handle(sf)
@@ -208,6 +208,7 @@ def run(case: dict, ctx) -> dict:
     res["cnt"]["multi_block_requests"] = crossing_count(reqs, bs)
     res["cnt"][f"sector_{ss}_cases"] = 1
     res["cnt"]["chunk_interleave_cases"] = int(k == "chunks")
+    res["cnt"]["blocks_beyond_1TiB_file_offset"] = sum(1 for m_ in pos.values() if m_ >= (1 << 20))
     present = [i for i, s in enumerate(st) if s == 6]
     order = [pos[i] for i in present]
     res["nontrivial"] = (len(present) >= 2 and order != sorted(order)) or n > ratio
